@@ -294,8 +294,30 @@ func (c *Ctx) flowMust(fn *ssa.Function) *lockFlowResult {
 // with the lock expressed in the enclosing function's terms.
 func (c *Ctx) closureLockSites(in ssa.Instruction, ref lockRef) ([]ssa.CallInstruction, []lockRef, bool) {
 	fn := in.Parent()
+	if fn.Parent() == nil {
+		return nil, nil, false
+	}
+	// the lock is named by a value of an enclosing function (field bases are canonicalised through
+	// captured-variable cells): it must be held where the literal is called
+	if rp := valueParent(ref.root); rp != nil && rp != fn && nestedIn(fn, rp) {
+		sites := c.sitesOf(fn)
+		if len(sites) == 0 {
+			return nil, nil, false
+		}
+		var refs []lockRef
+		for _, s := range sites {
+			if _, isGo := s.(*ssa.Go); isGo {
+				return nil, nil, false
+			}
+			if _, isMC := s.Common().Value.(*ssa.MakeClosure); !isMC {
+				return nil, nil, false
+			}
+			refs = append(refs, ref)
+		}
+		return sites, refs, true
+	}
 	fv, isFV := ref.root.(*ssa.FreeVar)
-	if !isFV || fn.Parent() == nil {
+	if !isFV {
 		return nil, nil, false
 	}
 	idx := -1
@@ -333,4 +355,16 @@ func (c *Ctx) closureLockSites(in ssa.Instruction, ref lockRef) ([]ssa.CallInstr
 		refs = append(refs, r)
 	}
 	return sites, refs, true
+}
+
+func valueParent(v ssa.Value) *ssa.Function {
+	switch x := v.(type) {
+	case *ssa.Parameter:
+		return x.Parent()
+	case *ssa.FreeVar:
+		return x.Parent()
+	case ssa.Instruction:
+		return x.Parent()
+	}
+	return nil
 }
